@@ -302,8 +302,37 @@ func observe(c *fw.Ctx, cs *Case, path string) []failure {
 		}
 		got := fw.FindTokens(txt)
 		c.Count("tokens_traced", int64(len(want)))
-		if !reflect.DeepEqual(got, want) && !(len(got) == 0 && len(want) == 0) {
-			add("text-tokens", "Text(): token sequence differs from page-by-page content order: %s", diffTokens(want, got))
+		// Text() runs the layout heuristics (column / reading-order detection), whose
+		// ordering *within* a page is not part of this property: content order is
+		// asserted on Fragments() above. Here: nothing lost or repeated, and pages
+		// in ascending order (every token of page i before every token of page i+1).
+		if len(got)+len(want) > 0 {
+			pageOf := map[string]int{}
+			for pi, ts := range tokens {
+				for _, t := range ts {
+					pageOf[t] = pi
+				}
+			}
+			gs, ws := append([]string{}, got...), append([]string{}, want...)
+			sort.Strings(gs)
+			sort.Strings(ws)
+			if !reflect.DeepEqual(gs, ws) {
+				add("text-tokens", "Text(): tokens lost, repeated or invented: %s", diffTokens(want, got))
+			} else {
+				last := 0
+				for _, t := range got {
+					if pageOf[t] < last {
+						add("text-page-order", "Text(): token %s of page %d appears after text of page %d", t, pageOf[t]+1, last+1)
+						break
+					}
+					last = pageOf[t]
+				}
+				if reflect.DeepEqual(got, want) {
+					c.Count("text_in_exact_content_order", 1)
+				} else {
+					c.Count("text_reordered_within_page_by_layout_heuristics", 1)
+				}
+			}
 		}
 	}
 	return fails
